@@ -29,11 +29,14 @@ pub struct RCase {
     pub check_png: bool,
 }
 
-pub const COLOUR_PAIRS: [([u8; 4], [u8; 4], &str); 3] = [
+pub const COLOUR_PAIRS: [([u8; 4], [u8; 4], &str); 5] = [
     ([0, 0, 0, 255], [255, 255, 255, 255], "black on white"),
     ([255, 255, 255, 255], [0, 0, 0, 255], "white on black"),
     ([255, 0, 0, 255], [0, 0, 0, 0], "red on fully transparent"),
+    ([0, 0, 255, 255], [255, 255, 0, 255], "blue on yellow"),
+    ([16, 32, 48, 255], [250, 128, 1, 255], "dark slate on orange"),
 ];
+pub const NPAIRS: usize = COLOUR_PAIRS.len();
 
 impl RCase {
     pub fn to_json(&self) -> Value {
@@ -58,6 +61,15 @@ impl RCase {
     }
 }
 
+/// a second symbol of the same version with other modules (rendered first on a builder that is then reused)
+fn symbol_other(v: usize) -> Option<Box<QRCode>> {
+    let input = content(Family::Lo, 2, crate::refmodel::cap(v, 1, 2) / 2);
+    match subject::build(&input, &Opts { mode: Some(2), ecl: Some(1), version: Some(v as u8), mask: None }) {
+        Outcome::Ok(q) => Some(q),
+        _ => None,
+    }
+}
+
 fn symbol(v: usize) -> Option<Box<QRCode>> {
     let input = content(Family::Ctr, 2, crate::refmodel::cap(v, 1, 2));
     match subject::build(&input, &Opts { mode: Some(2), ecl: Some(1), version: Some(v as u8), mask: None }) {
@@ -67,6 +79,10 @@ fn symbol(v: usize) -> Option<Box<QRCode>> {
 }
 
 pub fn check_case(c: &RCase, q: &QRCode) -> (Vec<(String, String)>, Option<u64>) {
+    check_case2(c, q, None)
+}
+
+pub fn check_case2(c: &RCase, q: &QRCode, other: Option<&QRCode>) -> (Vec<(String, String)>, Option<u64>) {
     let mut out = vec![];
     let n = q.size;
     let s = n + 2 * c.margin;
@@ -177,6 +193,35 @@ pub fn check_case(c: &RCase, q: &QRCode) -> (Vec<(String, String)>, Option<u64>)
             Ok(Err(e)) => out.push(("png-error".into(), format!("to_bytes returned an error: {}", e))),
             Err(m) => out.push(("panic".into(), format!("to_bytes panicked: {}", m))),
         }
+        // the same on a builder that has already rendered another symbol of the same pixel size: the PNG and the
+        // pixmap of *this* symbol must not carry anything over
+        if let Some(o) = other {
+            let r = subject::guarded(|| {
+                let b = mk();
+                let _ = b.to_bytes(o);
+                let bytes = b.to_bytes(q);
+                let _ = b.to_pixmap(o);
+                let pm = b.to_pixmap(q);
+                let mut again = Vec::with_capacity(w * h * 4);
+                for p in pm.pixels() {
+                    let d = p.demultiply();
+                    again.extend_from_slice(&[d.red(), d.green(), d.blue(), d.alpha()]);
+                }
+                (bytes, again, mk().to_bytes(q))
+            });
+            match r {
+                Ok((Ok(used), again, Ok(fresh))) => {
+                    if used != fresh {
+                        out.push(("png-differs-on-reused-builder".into(), "to_bytes() of a builder that rendered another symbol of the same size before differs from a fresh builder's output for the same symbol".to_string()));
+                    }
+                    if again != rgba {
+                        out.push(("pixmap-differs-on-reused-builder".into(), "to_pixmap() of a builder that rendered another symbol of the same size before differs from a fresh builder's pixmap".to_string()));
+                    }
+                }
+                Ok(_) => out.push(("png-error".into(), "to_bytes returned an error on a reused builder".to_string())),
+                Err(m) => out.push(("panic".into(), format!("render on a reused builder panicked: {}", m))),
+            }
+        }
     }
     (out, Some(digest))
 }
@@ -184,25 +229,27 @@ pub fn check_case(c: &RCase, q: &QRCode) -> (Vec<(String, String)>, Option<u64>)
 pub fn replay(case: &Value) -> Result<Vec<(String, String)>, String> {
     let c = RCase::from_json(case).ok_or("malformed raster case")?;
     let q = symbol(c.v).ok_or("build failed")?;
-    Ok(check_case(&c, &q).0.into_iter().map(|(k, w)| (format!("C13/{}", k), w)).collect())
+    let o = symbol_other(c.v);
+    Ok(check_case2(&c, &q, o.as_deref()).0.into_iter().map(|(k, w)| (format!("C13/{}", k), w)).collect())
 }
 
 pub fn run(ctx: &Ctx) -> Collector {
     let col = Collector::new("C13", "exploration");
-    col.set_rule("cases = (a) square shape at original scale: all 40 versions x margins {0,4} x 3 colour pairs, every pixel exact; (b) 6 shapes x versions x margins x fits {width kS, height kS for k in 4,5,8; (w,h) with w != h in both orders; non-integer scale kS+3} x colour pairs {black/white, white/black, red on fully transparent} (quick: versions {1,2,7,40}, margins {0,4}, colour pair rotated per case; thorough: versions {1,2,7,14,27,40}, margins {0,1,4}, full product); oracle: pixmap square with the requested side, centre pixel of every dark module = module colour, of every light module and quiet-zone cell = background (scale >= 4), every pixel of every cell for the square shape at integer scale, and to_bytes() decoded by an independent PNG reader (own inflate, CRC-32, Adler-32, unfilter) equals the de-multiplied pixmap; non-trivial = a pixmap was rendered; distinct = distinct pixel buffers");
+    col.set_rule("cases = (a) square shape at original scale: all 40 versions x margins {0,4} x 3 colour pairs, every pixel exact; (b) 6 shapes x versions x margins x fits {width kS, height kS for k in 4,5,8; (w,h) with w != h in both orders; non-integer scale kS+3} x 5 colour pairs {black/white, white/black, red on fully transparent, blue/yellow, slate/orange} (quick: versions {1,2,7,40}, margins {0,4}, colour pair rotated per case, plus every version x every shape at 4 pixels per module; thorough: all 40 versions, margins {0,1,4}, full product); oracle: pixmap square with the requested side, centre pixel of every dark module = module colour, of every light module and quiet-zone cell = background (scale >= 4), every pixel of every cell for the square shape at integer scale, and to_bytes() decoded by an independent PNG reader (own inflate, CRC-32, Adler-32, unfilter) equals the de-multiplied pixmap, also on a builder that has rendered another symbol of the same size before; non-trivial = a pixmap was rendered; distinct = distinct pixel buffers");
     col.assume("module colours opaque, background alpha 0 or 255: the expected pixel is the colour itself, no blending rule assumed");
     col.assume("resvg/usvg/tiny-skia/png are part of the subject as linked; fit sizes below 4 pixels per module are checked for size only (square shape at integer scale >= 1: every pixel)");
     let thorough = ctx.tier.thorough();
     let mut cases: Vec<RCase> = vec![];
     for v in 1..=40usize {
         for margin in [0usize, 4] {
-            for colours in 0..3 {
+            for colours in 0..NPAIRS {
                 cases.push(RCase { v, shape: 0, margin, fit: Fit::Original, colours, check_png: true });
             }
         }
     }
     let n_a = cases.len();
-    let vers: &[usize] = if thorough { &[1, 2, 7, 14, 27, 40] } else { &[1, 2, 7, 40] };
+    let all_versions: Vec<usize> = (1..=40).collect();
+    let vers: &[usize] = if thorough { &all_versions } else { &[1, 2, 7, 40] };
     let margins: &[usize] = if thorough { &[0, 1, 4] } else { &[0, 4] };
     let mut idx = 0usize;
     for &v in vers {
@@ -222,7 +269,7 @@ pub fn run(ctx: &Ctx) -> Collector {
                         Fit::Both(a, b) => a.min(b),
                         Fit::Original => s,
                     };
-                    let cps: Vec<usize> = if thorough { vec![0, 1, 2] } else { vec![idx % 3] };
+                    let cps: Vec<usize> = if thorough { (0..NPAIRS).collect() } else { vec![idx % NPAIRS] };
                     idx += 1;
                     for colours in cps {
                         cases.push(RCase { v, shape, margin, fit, colours, check_png: thorough || side <= 500 });
@@ -231,15 +278,25 @@ pub fn run(ctx: &Ctx) -> Collector {
             }
         }
     }
+    // every version x every shape at 4 pixels per module (centre sampling), colour pair rotating
+    if !thorough {
+        for v in 1..=40usize {
+            for shape in 0..6usize {
+                let s = (17 + 4 * v + 2) as u32;
+                cases.push(RCase { v, shape, margin: 1, fit: Fit::Width(4 * s), colours: (v + shape) % NPAIRS, check_png: v <= 10 });
+            }
+        }
+    }
     // small fits (>= 1 pixel per module, square shape, integer scale): exact
     for &v in &[1usize, 3, 10] {
         for k in [1u32, 2, 3] {
             let s = (17 + 4 * v + 8) as u32;
-            cases.push(RCase { v, shape: 0, margin: 4, fit: Fit::Width(k * s), colours: (k as usize) % 3, check_png: true });
-            cases.push(RCase { v, shape: 0, margin: 4, fit: Fit::Both(k * s, k * s + 7), colours: (k as usize + 1) % 3, check_png: true });
+            cases.push(RCase { v, shape: 0, margin: 4, fit: Fit::Width(k * s), colours: (k as usize) % NPAIRS, check_png: true });
+            cases.push(RCase { v, shape: 0, margin: 4, fit: Fit::Both(k * s, k * s + 7), colours: (k as usize + 1) % NPAIRS, check_png: true });
         }
     }
     let qs: Vec<Option<Box<QRCode>>> = (1..=40).map(symbol).collect();
+    let qs_other: Vec<Option<Box<QRCode>>> = (1..=40).map(symbol_other).collect();
     // heaviest first for better load balance
     let mut order: Vec<usize> = (0..cases.len()).collect();
     order.sort_by_key(|&i| std::cmp::Reverse(cases[i].v * 100 + match cases[i].fit { Fit::Original => 0, _ => 50 }));
@@ -248,7 +305,7 @@ pub fn run(ctx: &Ctx) -> Collector {
         let c = &cases[i];
         match &qs[c.v - 1] {
             Some(q) => {
-                let (f, d) = check_case(c, q);
+                let (f, d) = check_case2(c, q, qs_other[c.v - 1].as_deref());
                 col.eval(d);
                 for (k, w) in f {
                     col.violation((if i < n_a { 0 } else { 1 }, i as u64), format!("C13/{}", k), format!("v{} {} margin {} {:?} {}: {}", c.v, SHAPE_NAMES[c.shape], c.margin, c.fit, COLOUR_PAIRS[c.colours].2, w), c.to_json());
@@ -260,8 +317,8 @@ pub fn run(ctx: &Ctx) -> Collector {
             }
         }
     });
-    col.space(json!({"name": "original scale", "cases": n_a, "what": "square shape, all 40 versions x margins {0,4} x 3 colour pairs, every pixel + PNG round trip", "exhaustive": true}));
-    col.space(json!({"name": "shapes x fits", "cases": cases.len() - n_a, "what": format!("6 shapes x versions {:?} x margins {:?} x 9 fit requests x colour pairs (+ small integer fits for the square shape)", vers, margins), "exhaustive": true}));
+    col.space(json!({"name": "original scale", "cases": n_a, "what": "square shape, all 40 versions x margins {0,4} x 5 colour pairs, every pixel + PNG round trip", "exhaustive": true}));
+    col.space(json!({"name": "shapes x fits", "cases": cases.len() - n_a, "what": format!("6 shapes x versions {:?} x margins {:?} x 9 fit requests x colour pairs (+ small integer fits for the square shape; quick: + all 40 versions x 6 shapes at 4 pixels per module)", vers, margins), "exhaustive": true}));
     col.sample(cases[0].to_json());
     col.sample(cases[n_a].to_json());
     col.sample(cases[cases.len() - 1].to_json());
